@@ -49,6 +49,10 @@ C = {
     'z3 equivalence of all optimiser outputs of one (rule, switches) on real solver MIR; write guard on every explored path (purity); repeated native optimise() calls for the printed form (concrete)',
     'Order independence and purity are decided over all documents / all explored paths; "prints the same" is decided by repeated concrete runs (labelled); thread schedules are not explored.',
     MODELS + '; hash-order variants collected by repetition'),
+ 'C13': ('model_checking', '3/C13',
+    'symbolic execution of rustc MIR of Rule::validate over symbolic example states (is_mapping, matches) with solve() as an arbitrary boolean per example; z3 against the specification of validate(); native replay through rules realising the model',
+    'All example lists with up to 3 positives and 3 negatives and all 2^(2k) example states: no panic, Ok(true) iff every example is right, Err(Validation) naming exactly the failing examples.',
+    'solve() abstracted to a boolean per example (C02 covers its meaning); format!/Error::with modelled to keep which examples are mentioned'),
  'C16': ('other', '3/C16',
     'symbolic execution of rustc MIR with a recording symbolic document; z3 decides feasibility of every recorded request for a key the rule does not write',
     'Every Document::find/Object::get reaching the user document on any feasible path of any template tree / optimiser output is for a written key; verdict terms mention only requested cells.',
